@@ -31,11 +31,29 @@ PROPS = {
             {"run": "^TestC18All32$", "shards": 16, "thorough_only": True, "timeout_thorough": 3000},
         ],
     },
+    "C05": {
+        "rule": ("same (config x type x values) generator as C01; for each case every codec reachable from CodecForType is obtained by walking "
+                 "the type and asking plenc for the codec of each sub-type with its tag option, and applied to the matching sub-value "
+                 "(respecting the callers' preconditions: tagged forms only when !Omit, map pointer on write). Laws: Size(nil)==len(Append(nil)); "
+                 "Size(tag)==len(Append(tag)) for tags of 1-3 bytes; tagged length-delimited form == tag||varint(len(body))||body (one frame "
+                 "per element in the repeated form); Read(body) consumes len(body); whole Marshal output walks to its exact end. A second "
+                 "generator covers exported codecs (BQTimestampCodec alone and registered on an instance, TimeCodec, TimeCompatCodec, "
+                 "InternedStringCodec; null codecs are reached through null-typed fields). Non-trivial = body of >=1 byte; distinct by case hash."),
+        "jobs": [{"run": "^TestC05", "shards": 16, "timeout_quick": 600, "timeout_thorough": 3000}],
+    },
+    "C06": {
+        "rule": ("(config x type x value) as C01 with extra weight on values that encode to nothing and on by-value pointer-shaped structs "
+                 "(single pointer/map field, nested wrappers); x prefix of 0-40 arbitrary bytes x capacity mode {cap==len, +1, exact fit, "
+                 "exact fit-1, large} x {by value, by pointer} x 1-4 repetitions re-using the returned buffer. Oracle: result == prefix || "
+                 "Marshal(nil,&v) (up to map entry order via the walker when a map has >1 entry), caller's bytes below len untouched, value "
+                 "unchanged. Non-trivial = non-empty prefix; distinct by case hash."),
+        "jobs": [{"run": "^TestC06", "shards": 16, "timeout_quick": 600, "timeout_thorough": 3000}],
+    },
 }
 
 # Properties not (yet) claimed, with the reason. Kept current by hand.
 NOT_APPLICABLE = {p: "check not built yet in this commit (work in progress; the technique applies, see DESIGN.md)" for p in
-                  ["C03", "C04", "C05", "C06", "C07", "C08", "C09", "C10", "C11", "C12", "C13", "C14", "C15", "C16", "C17", "C19", "C20"]}
+                  ["C03", "C04", "C07", "C08", "C09", "C10", "C11", "C12", "C13", "C14", "C15", "C16", "C17", "C19", "C20"]}
 
 # commits in /repo that add build-tag-guarded hooks
 HOOK_COMMITS = []
